@@ -846,7 +846,34 @@ func classifyH(h History) core.Class {
 	if s.linkDel {
 		link = "add+remove"
 	}
-	cl.Fingerprint = fmt.Sprintf("death=%v|link=%s|num=%s|listeners=%s|edit=%v|hi=%v|collide=%v|restart=%v|rereg=%v", s.death, link, s.numClass, strings.Join(lk, "+"), s.ledit, s.hiID, s.lcollide, s.restarts > 0, s.reregUnrestored)
+	num := "none"
+	switch s.numClass {
+	case "":
+	case "leading-zero", "padded":
+		num = "rewritten-as-int"
+	case "exponent", "decimal", "huge":
+		num = "rewritten-as-real"
+	default:
+		num = "digits"
+	}
+	lst := "none"
+	if len(lk) > 0 {
+		lst = "smb/ext"
+	}
+	if s.lkinds["http"] {
+		lst = "http"
+		if s.ledit {
+			lst = "http-edited"
+		}
+	}
+	rs := "none"
+	if s.restarts > 0 {
+		rs = "restart"
+	}
+	if s.reregUnrestored {
+		rs = "restart+rereg"
+	}
+	cl.Fingerprint = fmt.Sprintf("death=%v|link=%s|num=%s|listeners=%s|collide=%v|restart=%s", s.death, link, num, lst, s.lcollide, rs)
 	return cl
 }
 
@@ -865,7 +892,7 @@ func dedup(in []string) []string {
 func TestC10a(t *testing.T) {
 	core.Run(t, core.Spec[History]{
 		Property: "C10", Sub: "a",
-		Rule: "histories of 1-5 registrations followed by 0-25 operations over 1-5 agents (database file, a third each: fresh / created by the current code and opened again / a copy of the committed testdata/golden-schema.db made by the unchanged tree - labels db:fresh|existed|golden; a violation on the golden file only, while its schema differs from a fresh one, is reported as schema|existing-database-differs-from-fresh|<tables>; ids over the whole 32-bit range incl. >= 2^31; metadata strings from {plain, digit-only, leading zeros, exponent-like, hex-like, whitespace-padded, empty, non-ASCII, quotes/SQL, decimal/signed/huge numbers, 300-9000 bytes}): reg, poll, pivot connect/disconnect, COMMAND_CHECKIN with new metadata and key, sleep / kill-date / working-hours callbacks, exit, kill-date, operator mark dead/alive, listener add (SMB, External; HTTP on an ephemeral port at ~1/20 of adds; names, and a third of the pipe names / endpoints, mostly from one per-history family of strings that differ but collide under ASCII/Unicode case, LIKE/glob wildcards vs literal characters, leading/trailing blanks, prefixes, Unicode normalisation or SQL quoting - label listener-names-colliding = two such listeners coexist) / remove / HTTP edit through the operator's DispatchEvent path; about half of the histories also contain one family of crafted updates of one agent (labels upd:*), mostly as the last operations so that the reopen follows at once: BOUNDARY SHIFT - two consecutive updates (key-preserving check-ins, or sleep callbacks) whose rows differ only by characters/digits moved across the boundary of two columns adjacent in the write order of db.AgentUpdate or in agent.AgentInfo (e.g. Username|DomainName bob|'' -> ''|bob, SleepDelay|SleepJitter 1|20 -> 12|0, ProcessName|BaseAddress svc1|23 -> svc|123), everything else incl. LastCallIn byte-identical; SWAP of two same-typed columns; NO-OP update(s) followed by a real one; REVERT A->B->A; each optionally interleaved with repeated identical updates; RESTART operations in the middle (a new Teamserver on the same file restores sessions, links and listeners as Start() does - in (a)/(b) a transcription of its restore loops, in (c) the real Start() in a new process - then the history goes on with registrations of new ids, of restored ids and of ids that were NOT restored because they were inactive, updates, deaths, marks, link and listener changes; several restarts allowed; only performed while every stored link joins two active sessions; labels restart-in-the-middle, restarts:2+, operations-after-restart, re-registration-of-unrestored-inactive-id, new-id-registered-after-restart); then a fresh db.DatabaseNew on the same file read with AgentAll/ParentOf/LinksOf/ListenerAll. Oracle: restored agents == active sessions of the running server, 25 columns equal byte for byte incl. key and IV; ParentOf/LinksOf == the server's Links lists; listener rows == listeners present with every operator-configured field equal. Non-trivial: a death, a link change or a numeric-looking string before the reopen; distinct = (death, link none/add/add+remove, numeric class, listener kinds, edit, id>=2^31)",
+		Rule: "histories of 1-5 registrations followed by 0-25 operations over 1-5 agents (database file, a third each: fresh / created by the current code and opened again / a copy of the committed testdata/golden-schema.db made by the unchanged tree - labels db:fresh|existed|golden; a violation on the golden file only, while its schema differs from a fresh one, is reported as schema|existing-database-differs-from-fresh|<tables>; ids over the whole 32-bit range incl. >= 2^31; metadata strings from {plain, digit-only, leading zeros, exponent-like, hex-like, whitespace-padded, empty, non-ASCII, quotes/SQL, decimal/signed/huge numbers, 300-9000 bytes}): reg, poll, pivot connect/disconnect, COMMAND_CHECKIN with new metadata and key, sleep / kill-date / working-hours callbacks, exit, kill-date, operator mark dead/alive, listener add (SMB, External; HTTP on an ephemeral port at ~1/20 of adds; names, and a third of the pipe names / endpoints, mostly from one per-history family of strings that differ but collide under ASCII/Unicode case, LIKE/glob wildcards vs literal characters, leading/trailing blanks, prefixes, Unicode normalisation or SQL quoting - label listener-names-colliding = two such listeners coexist) / remove / HTTP edit through the operator's DispatchEvent path; about half of the histories also contain one family of crafted updates of one agent (labels upd:*), mostly as the last operations so that the reopen follows at once: BOUNDARY SHIFT - two consecutive updates (key-preserving check-ins, or sleep callbacks) whose rows differ only by characters/digits moved across the boundary of two columns adjacent in the write order of db.AgentUpdate or in agent.AgentInfo (e.g. Username|DomainName bob|'' -> ''|bob, SleepDelay|SleepJitter 1|20 -> 12|0, ProcessName|BaseAddress svc1|23 -> svc|123), everything else incl. LastCallIn byte-identical; SWAP of two same-typed columns; NO-OP update(s) followed by a real one; REVERT A->B->A; each optionally interleaved with repeated identical updates; RESTART operations in the middle (a new Teamserver on the same file restores sessions, links and listeners as Start() does - in (a)/(b) a transcription of its restore loops, in (c) the real Start() in a new process - then the history goes on with registrations of new ids, of restored ids and of ids that were NOT restored because they were inactive, updates, deaths, marks, link and listener changes; several restarts allowed; only performed while every stored link joins two active sessions; labels restart-in-the-middle, restarts:2+, operations-after-restart, re-registration-of-unrestored-inactive-id, new-id-registered-after-restart); then a fresh db.DatabaseNew on the same file read with AgentAll/ParentOf/LinksOf/ListenerAll. Oracle: restored agents == active sessions of the running server, 25 columns equal byte for byte incl. key and IV; ParentOf/LinksOf == the server's Links lists; listener rows == listeners present with every operator-configured field equal. Non-trivial: a death, a link change or a numeric-looking string before the reopen; distinct = (death, link none/add/add+remove, numeric class bucket, listeners none/smb-ext/http/http-edited, colliding names, none/restart/restart+re-registration)",
 		Gen:   genA, Check: checkA, Classify: classifyH,
 		Assumptions: []string{
 			"reference for 'what had happened' is the state the running server holds in memory when the last operation returned; callbacks are delivered through agent.TaskDispatch, registrations and polls through handlers.(*External).Request",
